@@ -10,6 +10,7 @@ R4  compile(): density assert on every path; is_accepting / is_terminal / tags d
     transition table — the stride DFA::transition multiplies the state by, the stride compile() stores and the number of entries each state
     contributes are all |alphabet| = 256 (symbols 0..=255 in order, entry j looked up as edges.get(&j)).
 """
+import copy
 import re
 import time
 
@@ -158,6 +159,73 @@ def _eps_sites(prog, body, depth=0, stack=()):
                 n += a
                 merges += m
     return n, merges
+
+
+# Workaround kept in this module (sa/grammar.py is shared): the role-dataflow reader knows `ends.first()/last()` followed by unwrap()/expect(),
+# `let Some(..) = .. else`, `if let Some(..)`; these are the remaining Option combinators that denote the same element once the operand list is known to
+# be non-empty (it was indexed before - same panic on an empty list - or the empty list has returned early):
+#   opt.map_or(default, |p| f(p)) / opt.map_or_else(|| default, |p| f(p))  ==  f(element)        (default evaluated only for well-formedness)
+#   opt.map(|p| f(p))  ==  Some(f(element));   opt.unwrap_or(d) / unwrap_or_else(|| d) / unwrap_or_default()  ==  element
+def _install_option_combinators():
+    RE = getattr(G, "_RoleEval", None)
+    if RE is None or getattr(RE, "_c15_option_combinators", False):
+        return
+    orig = RE.mcall_val
+
+    def apply_closure(self, c, v, what):
+        if c is None or len(c["params"]) != 1:
+            self.err("closure in %s" % what)
+        saved = dict(self.env)
+        try:
+            self.bind(c["params"][0], v)
+            return self.body_val(c["body"])
+        finally:
+            self.env = saved
+
+    def mcall_val(self, e):
+        m, args = e.get("m"), e.get("args") or []
+        if m in ("map_or", "map_or_else", "map", "unwrap_or", "unwrap_or_else", "unwrap_or_default", "is_some_and"):
+            # probe the receiver on a snapshot of the evaluator state: when this wrapper does not handle the call, every effect of the probe is
+            # undone and the original reader evaluates the receiver itself
+            names = ("env", "arity", "reserve", "merged", "new_states", "eps", "byte_edges", "on_empty", "fresh", "result", "sites", "byte_loop_ok",
+                     "scope", "idx", "ends_indexed", "local_consts", "local_fns", "static_extra")
+            snap = {}
+            for n in names:
+                v = getattr(self, n)
+                snap[n] = copy.deepcopy(v) if n == "fresh" else (v.copy() if isinstance(v, (dict, set)) else (list(v) if isinstance(v, list) else v))
+            try:
+                recv = self.val(e["recv"])
+            except G.WiringError:
+                recv = None
+            if recv is None or recv[0] != "opt":
+                for n in names:
+                    setattr(self, n, snap[n])
+                return orig(self, e)
+            nonempty = self.ends_indexed or self.on_empty is not None or self.arity == "unary"
+            if recv is not None and recv[0] == "opt" and nonempty and self.scope == "once":
+                what = G.expr_text(e) if hasattr(G, "expr_text") else m
+                if m in ("map_or", "map_or_else") and len(args) == 2:
+                    if m == "map_or":
+                        self.val(args[0])
+                    elif G._closure_of(args[0]) is None:
+                        self.err("default of %s" % what)
+                    self.ends_indexed = True
+                    return apply_closure(self, G._closure_of(args[1]), recv[1], what)
+                if m == "map" and len(args) == 1 and G._closure_of(args[0]) is not None:
+                    return ("opt", apply_closure(self, G._closure_of(args[0]), recv[1], what))
+                if (m == "unwrap_or" and len(args) == 1) or (m == "unwrap_or_else" and len(args) == 1 and G._closure_of(args[0]) is not None) or \
+                        (m == "unwrap_or_default" and not args):
+                    if m == "unwrap_or":
+                        self.val(args[0])
+                    self.ends_indexed = True
+                    return recv[1]
+        return orig(self, e)
+
+    RE.mcall_val = mcall_val
+    RE._c15_option_combinators = True
+
+
+_install_option_combinators()
 
 
 def rule_r1(ctx, wiring):
@@ -925,6 +993,40 @@ def table_rows(T, comp):
                 (fills if nm in ("extend", "push", "extend_from_slice", "append") else other).append((b2, cx2, bb, t, nm))
         if other:
             return dict(res, problem="the table vector is also modified by %s" % sorted({o[4] for o in other}))
+        if len(fills) == 1 and fills[0][4] == "push":
+            # one cell pushed per step of an inner loop that is run once per (index, (state, edges)) of enumerate(dfa_table): the inner loop's
+            # iterator is that state's row, the pushed value its cell
+            b2, cx2, bb, t, nm = fills[0]
+            rs = [r for r in regs if r.body is b2 and bb in r.blocks and r.form in ("loop", "for_each")]
+            if len(rs) != 1:
+                return dict(res, problem="the push into the table vector is not inside a traversal of enumerate(dfa_table)")
+            r = rs[0]
+            cfg2 = b2.cfg()
+            around = [h for h, blks in cfg2.loops().items() if bb in blks]
+            qs = [q for q in regions_over(T, b2, lambda c: True, cx=cx2, within=r.blocks)
+                  if q.form == "loop" and bb in q.blocks and q.site_bb != r.site_bb and (r.form != "loop" or q.blocks < r.blocks)]
+            if len(qs) != 1 or len(around) != (2 if r.form == "loop" else 1):
+                return dict(res, problem="the push into the table vector is not inside exactly one inner loop per entry of enumerate(dfa_table)")
+            q = qs[0]
+            # the row iterator is created afresh for every entry: its single definition lies in the outer region, outside the inner loop
+            it_op = b2.blocks[q.site_bb]["term"]["args"][0]
+            it_local = None
+            for _ in range(6):      # next(&mut *&mut it): follow reborrows down to the iterator local
+                k_, d_ = _single_def(b2, it_op)
+                if k_ != "ref" or any(e_["k"] != "deref" for e_ in d_["place"]["p"]):
+                    break
+                if not d_["place"]["p"]:
+                    it_local = d_["place"]["l"]
+                    break
+                it_op = {"k": "copy", "place": {"l": d_["place"]["l"], "p": []}}
+            ds = b2.defs_of(it_local) if it_local is not None else []
+            fresh_row = len(ds) == 1 and ds[0][0] in r.blocks and ds[0][0] not in q.blocks
+            if not fresh_row:
+                return dict(res, problem="the iterator of the inner loop that pushes the cells is not created once per entry of enumerate(dfa_table)")
+            once = r.full and q.full and q.must_pass([bb])[0] and r.must_pass([q.site_bb])[0]
+            ok_path = once and cfg.must_pass([r.site_bb], exits=[agg_bb])[0]
+            return dict(res, region=r, row=(b2, {"k": "move", "place": {"l": it_local, "p": []}}, cx2), fill="push per cell of a row loop", on_every_path=ok_path,
+                        cell=(q, bb, t))
         if len(fills) != 1 or fills[0][4] != "extend":
             return dict(res, problem="the table vector is filled by %s (one extend expected)" % [f[4] for f in fills])
         b2, cx2, bb, t, nm = fills[0]
@@ -1271,7 +1373,8 @@ def rule_r4_table(ctx):
     if tr is None or comp is None:
         ctx.anchor("R4-TABLE", "transition/compile")
         return
-    # ---- (1) the stride DFA::transition uses
+    # ---- (1) the stride DFA::transition uses (the index arithmetic may live in a private helper: look at the body with helpers expanded)
+    tr = prog.inlined(tr.path, keep=r"::transition$", multi=True) or tr
     idx_locals = set()
 
     def scan(place):
@@ -1366,6 +1469,24 @@ def rule_r4_table(ctx):
     key = edges = ret = None
     E = region.elem[0]
     want_edges = T.field(T.field(E, "1"), "1")
+    cell = tr.get("cell")
+    if cell is not None and mc is None:
+        # rows written cell by cell: the inner loop's element is the symbol, the pushed value must be the lookup of that symbol in the entry's edge map
+        q, pbb, pt = cell
+        ret = T.of(rbody, pt["args"][1], rcx)
+        gets = [t for bb, t in rbody.calls() if bb in q.blocks and _last_seg(callee_name(t)) == "get" and len(t["args"]) == 2]
+        if len(gets) == 1:
+            edges = T.of(rbody, gets[0]["args"][0], rcx)
+            key = T.of(rbody, gets[0]["args"][1], rcx)
+        good = key is not None and key == q.elem[0] and edges == want_edges and ret == ("call", "get", (edges, key))
+        ctx.instance("R4-TABLE", {"cell_loop": q.describe(), "lookup_key": ts(key, 80) if key else None, "edge_map": ts(edges, 160) if edges else None,
+                                  "entry": ts(ret, 200) if ret else None, "ok": good})
+        if not good:
+            ctx.violation("R4-TABLE", where, "column-key",
+                          "entry j of a state's row must be edges.get(&j) on the edge map of the enumerated (state, edges) pair; found key %s on %s giving %s" % (
+                              ts(key, 80) if key else None, ts(edges, 120) if edges else None, ts(ret, 160) if ret else None),
+                          sites=[rbody.loc])
+        return
     if mc is not None:
         parent, agg = _closure_agg(prog, mc)
         if agg is not None and parent is not None and parent.path == rbody.path:
